@@ -261,11 +261,11 @@ class EscapeOfHEProducts(ExactSolver):
 
         # Initialize the physical variables
 
-        csvec = np.empty_like(xvec)
-        uvec = np.empty_like(xvec)
-        pvec = np.empty_like(xvec)
-        evec = np.empty_like(xvec)
-        rhovec = np.empty_like(xvec)
+        csvec = np.empty_like(xvec, dtype=float)
+        uvec = np.empty_like(xvec, dtype=float)
+        pvec = np.empty_like(xvec, dtype=float)
+        evec = np.empty_like(xvec, dtype=float)
+        rhovec = np.empty_like(xvec, dtype=float)
         regvec = []  # For string variables, need to use a regular python list
 
         # Loop over x
